@@ -55,11 +55,12 @@ def merge(total: dict, part: dict):
 
 
 def run_sharded(modname: str, shards: list, budget_s: float, workers: int | None = None,
-                max_violations: int = 200) -> dict:
+                max_violations: int = 200, known_signatures=()) -> dict:
     workers = workers or min(16, os.cpu_count() or 4)
     total = new_result()
     t0 = time.time()
     total["shards_planned"] = len(shards)
+    total["known_counts"] = {}
     done = 0
     if not shards:
         return total
@@ -80,7 +81,22 @@ def run_sharded(modname: str, shards: list, budget_s: float, workers: int | None
                 break
             merge(total, part)
             done += 1
-            if len(total["violations"]) >= max_violations:
+            # keep at most 50 re-observations per known signature; they never stop the run early
+            seen = {}
+            kept = []
+            for v in total["violations"]:
+                sg = v.get("signature")
+                if sg in known_signatures:
+                    seen[sg] = seen.get(sg, 0) + 1
+                    total["known_counts"][sg] = total["known_counts"].get(sg, 0) + 1
+                    if seen[sg] > 50:
+                        continue
+                kept.append(v)
+            total["violations"] = kept
+            for sg in seen:
+                total["known_counts"][sg] -= min(seen[sg], 50)
+            unknown = sum(1 for v in kept if v.get("signature") not in known_signatures)
+            if unknown >= max_violations:
                 total["stopped_on_violations"] = True
                 break
         pool.terminate()
